@@ -134,7 +134,8 @@ def _explore(ctx, max_len):
         for spans in itertools.product("ABEDC", repeat=k):
             n_seq += 1
             # node pattern by position: text / text-break-text / text-break
-            seq = [(sp, f"t{i}", i % 3) for i, sp in enumerate(spans)]
+            # (every third sequence: neighbouring captions carry the SAME text - a repeated line is still a line)
+            seq = [(sp, (f"t{i // 2}" if n_seq % 3 == 0 else f"t{i}"), i % 3) for i, sp in enumerate(spans)]
             W.with_layout = n_seq % 2 == 0          # every other sequence: all captions positioned
             langs = {"en-US": [W.caption(*c) for c in seq], "fr": [W.caption(*c) for c in other]}
             case = {"timespans": [SPANS[s] for s in spans]}
